@@ -207,6 +207,29 @@ Reads(t) ==
      colcells |-> [x \in 1..(Width(t) + 1) |-> ColumnValues(t, x - 1)],
      columns  |-> t.cols]
 
+
+(* optimize_width: the exact result depends on how trailing empty cells are  *)
+(* run-length encoded ("minimize row width" counts the last run as one), so  *)
+(* it is specified as a RELATION between the table before and after:         *)
+(*  - rows below may be removed only if they are empty, and only trailing;   *)
+(*  - a kept row is a prefix of the old row and what was cut off is empty    *)
+(*    (style ignored);  columns are a prefix and still cover every row.      *)
+IsPrefix(a, b) == Len(a) <= Len(b) /\ SubSeq(b, 1, Len(a)) = a
+OptimizeWidthOK(t, u) ==
+    /\ Height(u) <= Height(t)
+    /\ \A y \in (Height(u) + 1)..Height(t) : RowIsEmpty(t.rows[y], FALSE)
+    /\ (Height(u) < Height(t)) => (Height(u) > 0 /\ RowIsEmpty(u.rows[Height(u)], FALSE))
+    /\ \A y \in 1..Height(u) :
+          /\ IsPrefix(u.rows[y], t.rows[y])
+          /\ \A i \in (Len(u.rows[y]) + 1)..Len(t.rows[y]) : IsEmptyCell(t.rows[y][i], TRUE)
+    /\ IsPrefix(u.cols, t.cols)
+    /\ \A y \in 1..Height(u) : Len(u.rows[y]) <= Width(u)
+
+(* to_csv + import_from_csv: values only (styles are not exported), each line *)
+(* loses its trailing empty cells, an empty cell and an empty string are the  *)
+(* same thing                                                                 *)
+CsvRows(t) == [y \in 1..Height(t) |-> RowRStrip(VSeq(PadTo(t.rows[y], Width(t), E)), TRUE)]
+
 -----------------------------------------------------------------------------
 (* Structural facts every reachable table satisfies (C07 at this level)     *)
 
